@@ -471,6 +471,19 @@ theorem keysUnique_of_tableOK (ws : List PyStr) (h : tableOK ws = true) : KeysUn
   · exact heq
   · exact absurd (key j i k hgt hi hmj hmi) id
 
+theorem mem_keysOf_self (w : PyStr) : w ∈ keysOf w := by
+  unfold keysOf
+  split <;> simp
+
+/-- the words themselves are strictly increasing under `encKey` (for words of at most eight code points
+    below 2^21 this is the lexicographic order of the file) -/
+theorem words_increasing_of_tableOK (ws : List PyStr) (h : tableOK ws = true) :
+    ws.Pairwise (fun a b => encKey a < encKey b) := by
+  simp only [tableOK, Bool.and_eq_true] at h
+  have hp := increasing_pairwise _ h.1
+  rw [List.pairwise_map, List.pairwise_flatMap] at hp
+  exact hp.2.imp (fun hab => hab _ (mem_keysOf_self _) _ (mem_keysOf_self _))
+
 theorem lowerWord_isWord (w : PyStr) (h : lowerWord w = true) :
     IsWord w ∧ asciiLower w = w ∧ ∀ c ∈ w, 97 ≤ c ∧ c ≤ 122 := by
   simp only [lowerWord, Bool.and_eq_true, Bool.not_eq_true', List.all_eq_true, decide_eq_true_eq] at h
@@ -509,6 +522,7 @@ structure TableOK (n : Nat) (wl : WordList) : Prop where
   hlen : wl.words.length = n
   huniq : KeysUnique wl.words
   hlower : ∀ w ∈ wl.words, lowerWord w = true
+  hsorted : wl.words.Pairwise (fun a b => encKey a < encKey b)
 
 theorem tableOK_of_check (n : Nat) (o : Option WordList) (h : checkWL n o = true) :
     ∃ wl, o = some wl ∧ TableOK n wl := by
@@ -516,7 +530,7 @@ theorem tableOK_of_check (n : Nat) (o : Option WordList) (h : checkWL n o = true
   | none => simp [checkWL] at h
   | some wl =>
     simp only [checkWL, Bool.and_eq_true, beq_iff_eq] at h
-    exact ⟨wl, rfl, h.1, keysUnique_of_tableOK _ h.2, tableOK_words _ h.2⟩
+    exact ⟨wl, rfl, h.1, keysUnique_of_tableOK _ h.2, tableOK_words _ h.2, words_increasing_of_tableOK _ h.2⟩
 
 theorem bip39_table : ∃ wl, BIP39? = some wl ∧ TableOK 2048 wl := tableOK_of_check _ _ bip39_check
 
